@@ -141,14 +141,17 @@ HandOffQueue(r) ==
                  established, lkW, lkR, lkWait, epoch, alive, routers, rmBlocked, c2s, s2c, up, crashes, mutHeld,
                  handlers, items, closed, started>>
 
-HandOffDirect(r) ==
-  /\ cpc[r] = "handoff" /\ SendBuf = 0 /\ spc = "idle" /\ sendQ = <<>>
+\* (HandOffThrough: the request passes through an empty queue to the idle sender; with a
+\* rendezvous queue this is the only way)
+HandOffThrough(r) ==
+  /\ cpc[r] = "handoff" /\ spc = "idle" /\ sendQ = <<>>
   /\ spc' = "check" /\ cur' = r /\ sndErr' = FALSE
   /\ cpc' = [cpc EXCEPT ![r] = AfterHandOff(r)]
   /\ enqOrder' = Append(enqOrder, r)
   /\ UNCHANGED <<ctx, resp, taken, sendQ, sretries, sndEpoch, raced, rpc, rcvEpoch, rmsg, rcvLast, rcvFailed, watcher, broken, wake, established, lkW,
                  lkR, lkWait, epoch, alive, routers, rmBlocked, c2s, s2c, up, crashes, mutHeld, handlers, items,
                  closed, started>>
+HandOffDirect(r) == SendBuf = 0 /\ HandOffThrough(r)
 
 \* The caller answers its own request.  Deviation EnqueueBlocksOnOwnReplyChannel: a
 \* blocking send under the router mutex; when the (streaming) channel is full the
@@ -228,6 +231,16 @@ TakeCtx(r) ==
                  established, lkW, lkR, lkWait, epoch, alive, routers, rmBlocked, c2s, s2c, up, crashes, mutHeld,
                  handlers, items, closed, enqOrder, started>>
 
+\* repaired design: while it waits for the router mutex, the finished call keeps
+\* taking (and dropping) what is handed to its channel, so that a receiver blocked
+\* in a delivery to it goes on
+DrainItem(r) ==
+  /\ cpc[r] = "delete" /\ taken[r] < Len(resp[r]) /\ "StreamRouteBlocksUnderRM" \notin Devs
+  /\ taken' = [taken EXCEPT ![r] = @ + 1]
+  /\ UNCHANGED <<cpc, ctx, resp, sendQ, spc, cur, sndErr, sretries, sndEpoch, raced, rpc, rcvEpoch, rmsg, rcvLast, rcvFailed, watcher,
+                 broken, wake, established, lkW, lkR, lkWait, epoch, alive, routers, rmBlocked, c2s, s2c, up, crashes, mutHeld,
+                 handlers, items, closed, enqOrder, started>>
+
 \* a finished streaming call removes its router (deferred deleteRouter).
 \* Deviation StreamRouteBlocksUnderRM: it needs the router mutex, which a
 \* receiver blocked in a delivery to this very call holds.  Repaired design:
@@ -247,7 +260,8 @@ DeleteRouter(r) ==
 (* The RW lock (Go semantics: a waiting writer blocks new readers)         *)
 (***************************************************************************)
 CanRLock == lkW = "none" /\ lkWait = {}
-CanWLock(p) == lkW = "none" /\ lkR = {}
+\* (a writer that is already waiting goes first: TryLock fails while another writer waits)
+CanWLock(p) == lkW = "none" /\ lkR = {} /\ lkWait \subseteq {p}
 
 (***************************************************************************)
 (* Sender                                                                  *)
@@ -328,19 +342,26 @@ WithinBound == (broken /\ NewStreamOK) => epoch < MaxEpoch
 \* Deviation FailedReconnectNilStream: the failed attempt's nil result replaces the
 \* current stream object; repaired design: the old (broken) object is kept.
 FailedAttempt == IF "FailedReconnectNilStream" \in Devs /\ epoch > 0 THEN [alive EXCEPT ![epoch] = "nil"] ELSE alive
+\* Creating a stream is a local operation: it may succeed although the server is down
+\* (the transport has not noticed yet); such a stream is dead from the start.
+Stillborn == ~up /\ ~closed /\ epoch < MaxEpoch
+
+\* the new stream: open, or dead from the start
+NewStream(state) ==
+  /\ epoch' = epoch + 1 /\ alive' = [alive EXCEPT ![epoch + 1] = state]
+  /\ broken' = FALSE
+  /\ wake' = ("RcvSleepsThroughReconnect" \notin Devs)     \* non-blocking send into the wake-up channel
 
 SLocked ==
   /\ spc = "s_locked" /\ lkW = "snd" /\ WithinBound
   /\ lkW' = "none"
-  /\ IF ~broken
-       THEN spc' = "brokenchk" /\ UNCHANGED <<epoch, alive, broken, wake, sretries>>
-       ELSE IF NewStreamOK
-              THEN /\ epoch' = epoch + 1 /\ alive' = [alive EXCEPT ![epoch + 1] = "open"]
-                   /\ broken' = FALSE /\ spc' = "brokenchk" /\ UNCHANGED sretries
-                   /\ wake' = ("RcvSleepsThroughReconnect" \notin Devs)     \* non-blocking send into the wake-up channel
-              ELSE /\ UNCHANGED epoch /\ alive' = FailedAttempt
-                   /\ IF sretries >= 1 THEN broken' = TRUE /\ spc' = "brokenchk" /\ UNCHANGED <<sretries, wake>>
-                      ELSE spc' = "s_sleep" /\ UNCHANGED <<broken, wake, sretries>>
+  /\ \/ ~broken /\ spc' = "brokenchk" /\ UNCHANGED <<epoch, alive, broken, wake, sretries>>
+     \/ broken /\ NewStreamOK /\ NewStream("open") /\ spc' = "brokenchk" /\ UNCHANGED sretries
+     \/ broken /\ Stillborn /\ NewStream("dead") /\ spc' = "brokenchk" /\ UNCHANGED sretries
+     \/ /\ broken /\ ~NewStreamOK
+        /\ UNCHANGED epoch /\ alive' = FailedAttempt
+        /\ IF sretries >= 1 THEN broken' = TRUE /\ spc' = "brokenchk" /\ UNCHANGED <<sretries, wake>>
+           ELSE spc' = "s_sleep" /\ UNCHANGED <<broken, wake, sretries>>
   /\ SUnch /\ UNCHANGED <<sendQ, resp, cur, sndErr, sndEpoch, raced, watcher, established, lkR, lkWait, routers, rmBlocked>>
 
 \* the sender's single back-off sleep (its timer does fire: client-internal)
@@ -353,17 +374,23 @@ SSleepDone ==
 
 \* the sender's sleep listens to the same wake-up channel
 SSleepWoken ==
-  /\ spc = "s_sleep" /\ wake /\ ~closed
+  /\ spc = "s_sleep" /\ wake
   /\ spc' = "s_lockwait" /\ wake' = FALSE
   /\ SUnch /\ UNCHANGED <<sendQ, resp, cur, sndErr, sretries, sndEpoch, raced, watcher, broken, established, lkW, lkR, lkWait, epoch,
                           alive, routers, rmBlocked>>
 
-\* "if c.streamBroken.get() { route stream-down error; continue }"
+\* "if c.streamBroken.get() { route stream-down error; continue }": the flag is read
+\* lock-free (BrokenCheck); the answer is routed afterwards, under the router mutex
+\* (BrokenReply) - the flag may have been cleared in between
 BrokenCheck ==
   /\ spc = "brokenchk"
-  /\ IF broken
-       THEN /\ RMFree /\ Delivered(cur, "err") /\ spc' = "idle" /\ cur' = 0
-       ELSE /\ spc' = "ctxchk" /\ UNCHANGED <<resp, routers, cur>>
+  /\ spc' = IF broken THEN "brokenreply" ELSE "ctxchk"
+  /\ SUnch /\ UNCHANGED <<sendQ, resp, routers, cur, sndErr, sretries, sndEpoch, raced, watcher, broken, wake, established, lkW, lkR,
+                          lkWait, epoch, alive, rmBlocked>>
+
+BrokenReply ==
+  /\ spc = "brokenreply" /\ RMFree
+  /\ Delivered(cur, "err") /\ spc' = "idle" /\ cur' = 0
   /\ SUnch /\ UNCHANGED <<sendQ, sndErr, sretries, sndEpoch, raced, watcher, broken, wake, established, lkW, lkR, lkWait, epoch,
                           alive, rmBlocked>>
 
@@ -384,22 +411,32 @@ SRLock ==
   /\ SUnch /\ UNCHANGED <<sendQ, resp, cur, sndErr, sretries, broken, wake, established, lkW, lkWait, epoch, alive, routers,
                           rmBlocked>>
 
-\* SendMsg returns: the message is on its way, or the stream is not usable
+\* SendMsg is not atomic: the message is on its way - and may be read by the
+\* server - before the call returns (SendWrite, then SendDone)
+SendWrite ==
+  /\ spc = "sending" /\ alive[sndEpoch] = "open" /\ Len(c2s[sndEpoch]) < Window
+  /\ c2s' = [c2s EXCEPT ![sndEpoch] = Append(@, cur)]
+  /\ spc' = "written"
+  /\ UNCHANGED <<cpc, ctx, taken, rpc, rcvEpoch, rmsg, rcvLast, rcvFailed, s2c, up, crashes, mutHeld, handlers, items, closed, enqOrder,
+                 started, sendQ, resp, cur, sndErr, sretries, sndEpoch, raced, watcher, broken, wake, established, lkW, lkR, lkWait,
+                 epoch, alive, routers, rmBlocked>>
+
+\* SendMsg returns: the message was written, or the stream is not usable
 SendDone ==
-  /\ spc = "sending"
-  /\ \/ /\ alive[sndEpoch] = "open" /\ Len(c2s[sndEpoch]) < Window
-        /\ c2s' = [c2s EXCEPT ![sndEpoch] = Append(@, cur)]
+  /\ \/ /\ spc = "written"
         /\ UNCHANGED <<broken, wake, sndErr>>
-     \/ /\ alive[sndEpoch] \notin {"open", "nil"}
-        /\ broken' = TRUE /\ sndErr' = TRUE /\ UNCHANGED <<c2s, wake>>
-     \/ \* the write raced with the cancellation of the stream: SendMsg reports
-        \* success but the message never arrives
-        /\ alive[sndEpoch] = "cancelled" /\ raced
-        /\ UNCHANGED <<broken, wake, sndErr, c2s>>
+     \/ /\ spc = "sending" /\ alive[sndEpoch] \notin {"open", "nil"}
+        /\ broken' = TRUE /\ sndErr' = TRUE /\ UNCHANGED wake
+     \/ \* the write raced with the cancellation of the stream, or the peer is gone and the
+        \* local transport has not noticed yet: SendMsg reports success but the message
+        \* never arrives
+        /\ spc = "sending"
+        /\ (alive[sndEpoch] = "cancelled" /\ raced) \/ alive[sndEpoch] = "dead"
+        /\ UNCHANGED <<broken, wake, sndErr>>
   /\ watcher' = [watcher EXCEPT ![cur] = "off"]
   /\ lkR' = lkR \ {"snd"}
   /\ spc' = "confirm"
-  /\ UNCHANGED <<cpc, ctx, taken, rpc, rcvEpoch, rmsg, rcvLast, rcvFailed, s2c, up, crashes, mutHeld, handlers, items, closed, enqOrder,
+  /\ UNCHANGED <<cpc, ctx, taken, rpc, rcvEpoch, rmsg, rcvLast, rcvFailed, c2s, s2c, up, crashes, mutHeld, handlers, items, closed, enqOrder,
                  started, sendQ, resp, cur, sretries, sndEpoch, raced, established, lkW, lkWait, epoch, alive, routers,
                  rmBlocked>>
 
@@ -424,8 +461,8 @@ Confirm ==
 WatcherFires(r) ==
   /\ watcher[r] = "armed" /\ ctx[r] = "ended"
   /\ watcher' = [watcher EXCEPT ![r] = "off"]
-  /\ alive' = IF epoch > 0 /\ alive[epoch] = "open" THEN [alive EXCEPT ![epoch] = "cancelled"] ELSE alive
-  /\ raced' = (raced \/ (spc = "sending" /\ sndEpoch = epoch))
+  /\ alive' = IF epoch > 0 /\ alive[epoch] \in {"open", "dead"} THEN [alive EXCEPT ![epoch] = "cancelled"] ELSE alive
+  /\ raced' = (raced \/ (spc \in {"sending", "written"} /\ sndEpoch = epoch))
   /\ UNCHANGED <<cpc, ctx, resp, taken, sendQ, spc, cur, sndErr, sretries, sndEpoch, rpc, rcvEpoch, rmsg, rcvLast, rcvFailed, broken, wake,
                  established, lkW, lkR, lkWait, epoch, routers, rmBlocked, c2s, s2c, up, crashes, mutHeld, handlers,
                  items, closed, enqOrder, started>>
@@ -516,13 +553,10 @@ AfterReconnect == IF closed THEN "exiting" ELSE "rlockwait"
 RLocked ==
   /\ rpc = "r_locked" /\ lkW = "rcv" /\ WithinBound
   /\ lkW' = "none"
-  /\ IF ~broken
-       THEN rpc' = AfterReconnect /\ UNCHANGED <<epoch, alive, broken, wake>>
-       ELSE IF NewStreamOK
-              THEN /\ epoch' = epoch + 1 /\ alive' = [alive EXCEPT ![epoch + 1] = "open"]
-                   /\ broken' = FALSE /\ rpc' = AfterReconnect
-                   /\ wake' = ("RcvSleepsThroughReconnect" \notin Devs)
-              ELSE rpc' = "r_sleep" /\ alive' = FailedAttempt /\ UNCHANGED <<epoch, broken, wake>>
+  /\ \/ ~broken /\ rpc' = AfterReconnect /\ UNCHANGED <<epoch, alive, broken, wake>>
+     \/ broken /\ NewStreamOK /\ NewStream("open") /\ rpc' = AfterReconnect
+     \/ broken /\ Stillborn /\ NewStream("dead") /\ rpc' = AfterReconnect
+     \/ broken /\ ~NewStreamOK /\ rpc' = "r_sleep" /\ alive' = FailedAttempt /\ UNCHANGED <<epoch, broken, wake>>
   /\ RUnch /\ UNCHANGED <<rcvLast, rcvFailed, resp, rcvEpoch, rmsg, lkR, lkWait, routers, rmBlocked, s2c>>
 
 \* the receiver's back-off timer: ENVIRONMENT (it fires after up to MaxDelay)
@@ -535,9 +569,9 @@ TimerFire ==
 \* somebody else has re-created the stream (wake-up channel)
 SleepInterrupted ==
   /\ rpc = "r_sleep"
-  /\ closed \/ wake
-  /\ IF closed THEN rpc' = "exiting" /\ UNCHANGED wake
-     ELSE rpc' = "r_lockwait" /\ wake' = FALSE        \* the token is consumed
+  /\ \/ closed /\ rpc' = "exiting" /\ UNCHANGED wake
+     \/ wake /\ rpc' = "r_lockwait" /\ wake' = FALSE   \* the token is consumed (also possible on a closed node:
+                                                      \* the select picks any ready case)
   /\ RUnch /\ UNCHANGED <<rcvLast, rcvFailed, resp, rcvEpoch, rmsg, broken, lkW, lkR, lkWait, epoch, alive, routers, rmBlocked, s2c>>
 
 \* a receiver between two steps notices the closed node
@@ -634,8 +668,8 @@ Restart ==
 Close ==
   /\ WithClose /\ ~closed
   /\ closed' = TRUE
-  /\ alive' = [e \in Epochs |-> IF alive[e] = "open" THEN "cancelled" ELSE alive[e]]
-  /\ raced' = (raced \/ spc = "sending")
+  /\ alive' = [e \in Epochs |-> IF alive[e] \in {"open", "dead"} THEN "cancelled" ELSE alive[e]]
+  /\ raced' = (raced \/ spc \in {"sending", "written"})
   /\ EUnchNoRaced /\ UNCHANGED <<ctx, c2s, s2c, up, crashes, mutHeld, handlers, items>>
 
 (***************************************************************************)
@@ -643,9 +677,9 @@ Close ==
 (***************************************************************************)
 CallerStep == EagerConnect
               \/ \E r \in Reqs : Issue(r) \/ HandOffQueue(r) \/ HandOffDirect(r) \/ ClosedReply(r) \/ CtxReply(r)
-                               \/ Take(r) \/ TakeCtx(r) \/ DeleteRouter(r) \/ StreamEarlyDone(r)
+                               \/ Take(r) \/ TakeCtx(r) \/ DrainItem(r) \/ DeleteRouter(r) \/ StreamEarlyDone(r)
 SenderStep == Dequeue \/ SenderExit \/ Drain \/ CheckConnected \/ Dial \/ ReadBrokenForReconnect \/ SLockWait \/ SLocked
-              \/ SSleepDone \/ SSleepWoken \/ BrokenCheck \/ CtxCheck \/ SRLock \/ SendDone \/ SendNil \/ Confirm
+              \/ SSleepDone \/ SSleepWoken \/ BrokenCheck \/ BrokenReply \/ CtxCheck \/ SRLock \/ SendWrite \/ SendDone \/ SendNil \/ Confirm
               \/ \E r \in Reqs : WatcherFires(r)
 ReceiverStep == RRLock \/ CancelPending2 \/ RecvOk \/ Route \/ RecvNil \/ RecvErr \/ CancelPending \/ RLockWait \/ RLocked \/ SleepInterrupted
                 \/ RcvNoticeClosed \/ ReceiverExit
